@@ -14,7 +14,10 @@ import (
 	"fmt"
 	"math/big"
 	"math/rand/v2"
+	"os"
+	"runtime/debug"
 	"testing"
+	"time"
 
 	"github.com/consensys/gnark/logger"
 
@@ -23,6 +26,7 @@ import (
 
 func TestC15(t *testing.T) {
 	logger.Disable()
+	debug.SetGCPercent(300) // allocation-heavy big.Int work; the heap stays small
 	r := vcore.Start(t, "C15")
 	m := &monitor{r: r}
 
@@ -35,21 +39,27 @@ func TestC15(t *testing.T) {
 	light, heavy = append(light, l...), append(heavy, h...)
 	l, h = fsUnits(m)
 	light, heavy = append(light, l...), append(heavy, h...)
+	light = append(light, probeUnits(m)...)
 
 	r.Count("work-units.test-engine", len(light))
 	r.Count("work-units.compiled", len(heavy))
 	// test-engine units first (goroutine fan-out verified safe: the engine's only
 	// shared state are debug counters), then the memory-hungry compiled ones.
+	t0 := time.Now()
 	vcore.Parallel(len(light), 6, func(i int) { light[i]() })
+	fmt.Printf("timing: %d test-engine units %.1fs\n", len(light), time.Since(t0).Seconds())
+	t0 = time.Now()
 	vcore.Parallel(len(heavy), 4, func(i int) { heavy[i]() })
+	fmt.Printf("timing: %d compiled units %.1fs\n", len(heavy), time.Since(t0).Seconds())
 	r.Count("tap-hint-calls", int(tapHits.Load()))
 
 	for _, k := range binKindOrder {
-		r.Require("held."+k+"/Sum.engine", 10)
+		r.Require("held."+k+"/Sum.engine", 5)
 		r.Require("held."+k+"/Sum.r1cs", 2)
 		r.Require("held."+k+"/Sum.scs", 2)
+		r.Require("held."+k+"/Sum-chunked-writes.engine", 2)
 		if binKinds[k].fixed {
-			r.Require("held."+k+"/FixedLengthSum.engine", 5)
+			r.Require("held."+k+"/FixedLengthSum.engine", 3)
 		}
 	}
 	for _, e := range []string{"engine", "r1cs", "scs"} {
@@ -98,44 +108,77 @@ func binEngineUnits(m *monitor) []func() {
 	var jobs []binJob
 	for _, kind := range binKindOrder {
 		k := binKinds[kind]
+		B := k.block
+		add := func(n int, content string) {
+			jobs = append(jobs, binJob{kind: kind, msg: makeMsg(rng, n, content), content: content})
+		}
+		// --- Sum over the length grid
+		first := append([]int{0, 1, 2}, B-3, B-2, B-1, B, B+1, B+2) // sponge: dsbyte and 0x80 share a byte at B-1
+		if k.md {
+			first = append(first, B-11, B-10, B-9, B-8, B-7, B-6) // 0x80 + 8 length bytes no longer fit from B-8 on
+		}
 		var lengths []int
-		nContents := 1
-		if r.Quick() {
-			nb := 2
-			if k.md {
-				nb = 3
-			}
-			lengths = boundaryLengths(k, nb)
-		} else {
-			lengths = allLengths(3*k.block + 2)
-			nContents = 2
-			if k.md {
-				nContents = 4
-			}
+		switch {
+		// quick: the test engine costs 0.5-1.5 CPU-s per block, so the first block's
+		// boundaries are swept here and the wider grid on compiled circuits
+		case r.Quick() && kind == "sha256":
+			lengths = append(first, 2*B-9, 2*B-8)
+		case r.Quick() && kind == "ripemd160":
+			lengths = []int{0, 1, B - 10, B - 9, B - 8, B - 7, B - 1, B, B + 1, 2*B - 9, 2*B - 8}
+		case r.Quick() && kind == "sha3-256":
+			lengths = []int{0, 1, B - 2, B - 1, B, B + 1, 2*B - 1, 2 * B}
+		case r.Quick() && (kind == "keccak256" || kind == "keccak512"): // the sha3-256 / sha3-512 code with another dsbyte
+			lengths = []int{0, B - 1, B}
+		case r.Quick():
+			lengths = []int{0, B - 2, B - 1, B, B + 1}
+		case kind == "sha3-512":
+			lengths = allLengths(2*B + 2) // every length (smallest rate)
+		case kind == "sha3-256":
+			lengths = append(allLengths(B+2), boundaryLengths(k, 3)...)
+		default:
+			// every length of the two MD hashes is swept on compiled circuits (cheaper per block), see binCompiledUnits
+			lengths = boundaryLengths(k, 3)
 		}
+		seenLen := map[int]bool{}
 		for i, n := range lengths {
-			for c := 0; c < nContents; c++ {
-				content := contents[(i+c)%len(contents)]
-				jobs = append(jobs, binJob{kind: kind, msg: makeMsg(rng, n, content), content: content})
+			if seenLen[n] {
+				continue
+			}
+			seenLen[n] = true
+			add(n, contents[i%len(contents)])
+			if r.Thorough() && kind == "sha256" {
+				add(n, contents[(i+1)%len(contents)])
 			}
 		}
-		// write chunkings
-		small := r.Pick(3, 5)
-		if kind == "sha256" || kind == "sha3-256" {
+		// --- write chunkings: exhaustive for a short message, 1-byte / uneven / with empty pieces for multi-block ones
+		small := r.Pick(2, 4)
+		if kind == "sha256" {
 			small = r.Pick(4, 6)
+		} else if kind == "sha3-256" {
+			small = r.Pick(3, 5)
 		}
 		msg := makeMsg(rng, small, "random")
 		for _, c := range compositions(small) {
 			jobs = append(jobs, binJob{kind: kind, msg: msg, content: "random", chunks: c})
 		}
-		for _, n := range []int{k.block + 1, 2*k.block + 3} {
+		bigs := []int{B + 1}
+		if r.Thorough() {
+			bigs = []int{B + 1, 2*B + 3, B - 1}
+		}
+		for _, n := range bigs {
+			if r.Quick() && !(kind == "sha256" || kind == "sha3-256" || kind == "ripemd160") {
+				continue
+			}
 			msg := makeMsg(rng, n, "random")
 			jobs = append(jobs, binJob{kind: kind, msg: msg, content: "random", chunks: ones(n)})
-			jobs = append(jobs, binJob{kind: kind, msg: msg, content: "random", chunks: randomChunks(rng, n, false)})
-			jobs = append(jobs, binJob{kind: kind, msg: msg, content: "random", chunks: randomChunks(rng, n, true)})
+			if r.Thorough() || kind == "sha256" || kind == "sha3-256" {
+				jobs = append(jobs, binJob{kind: kind, msg: msg, content: "random", chunks: randomChunks(rng, n, false)})
+				jobs = append(jobs, binJob{kind: kind, msg: msg, content: "random", chunks: randomChunks(rng, n, true)})
+			}
 			if r.Thorough() {
-				for x := 0; x < 4; x++ {
-					jobs = append(jobs, binJob{kind: kind, msg: msg, content: "random", chunks: randomChunks(rng, n, x%2 == 0)})
+				jobs = append(jobs, binJob{kind: kind, msg: msg, content: "random", chunks: randomChunks(rng, n, true)})
+				if n > B { // exactly one block, then the rest
+					jobs = append(jobs, binJob{kind: kind, msg: msg, content: "random", chunks: []int{B, n - B}})
 				}
 			}
 		}
@@ -143,16 +186,16 @@ func binEngineUnits(m *monitor) []func() {
 			jobs = append(jobs, fixedJobs(r, rng, kind)...)
 		}
 	}
-	batches := packJobs(jobs, r.Pick(60, 90))
+	batches := packJobs(jobs, 30)
 	var units []func()
 	for i, b := range batches {
 		b := b
 		ctl := i%3 == 0
 		units = append(units, func() { m.judgeShape(engine{"engine", bn}, []batch{b}, ctl) })
 	}
-	// block functions
+	// block functions on arbitrary chaining values / states
 	var bj []blockJob
-	nSha, nKec := r.Pick(6, 60), r.Pick(3, 30)
+	nSha, nKec := r.Pick(4, 60), r.Pick(2, 30)
 	for i := 0; i < nSha; i++ {
 		bj = append(bj, blockJob{"sha256-block", makeMsg(rng, 96, contents[i%len(contents)])})
 	}
@@ -160,47 +203,39 @@ func binEngineUnits(m *monitor) []func() {
 		bj = append(bj, blockJob{"keccakf", makeMsg(rng, 200, contents[i%len(contents)])})
 	}
 	for len(bj) > 0 {
-		n := min(len(bj), 12)
+		n := min(len(bj), 15)
 		b := &blockBatch{jobs: bj[:n]}
 		bj = bj[n:]
 		units = append(units, func() { m.judgeShape(engine{"engine", bn}, []batch{b}, true) })
 	}
-	// a second and third field: the gadgets are generic over the native field
+	// other native fields: the gadgets are generic over the field
+	others := []*curveNat{curveNats[1]}
 	if r.Thorough() {
-		for _, cv := range []*curveNat{curveNats[1], curveNats[2], curveNats[5]} {
-			cv := cv
-			rng := r.Rand("bin-engine-" + cv.name)
-			var jobs []binJob
-			for _, kind := range binKindOrder {
-				k := binKinds[kind]
-				for i, n := range boundaryLengths(k, 2) {
-					content := contents[i%len(contents)]
-					jobs = append(jobs, binJob{kind: kind, msg: makeMsg(rng, n, content), content: content})
-				}
-				if k.fixed {
-					msg := makeMsg(rng, k.block+1, "random")
-					for _, n := range []int{0, k.block - 9, k.block - 1, k.block, k.block + 1} {
-						jobs = append(jobs, binJob{kind: kind, msg: msg, content: "random", fixed: true, length: n})
-					}
-				}
-			}
-			for _, b := range packJobs(jobs, 90) {
-				b := b
-				units = append(units, func() { m.judgeShape(engine{"engine", cv}, []batch{b}, true) })
-			}
-		}
-	} else {
-		cv := curveNats[1]
+		others = []*curveNat{curveNats[1], curveNats[2], curveNats[5]}
+	}
+	for _, cv := range others {
+		cv := cv
 		rng := r.Rand("bin-engine-" + cv.name)
 		var jobs []binJob
 		for _, kind := range binKindOrder {
 			k := binKinds[kind]
-			for i, n := range []int{0, k.block - 9, k.block - 1, k.block} {
+			B := k.block
+			lengths := []int{0, B}
+			if r.Thorough() {
+				lengths = boundaryLengths(k, 2)
+			}
+			for i, n := range lengths {
 				content := contents[i%len(contents)]
 				jobs = append(jobs, binJob{kind: kind, msg: makeMsg(rng, n, content), content: content})
 			}
+			if k.fixed && (r.Thorough() || kind == "sha256") {
+				msg := makeMsg(rng, B+1, "random")
+				for _, n := range []int{0, B + 1, B - 9, B - 1, B}[:r.Pick(2, 5)] {
+					jobs = append(jobs, binJob{kind: kind, msg: msg, content: "random", fixed: true, length: n})
+				}
+			}
 		}
-		for _, b := range packJobs(jobs, 90) {
+		for _, b := range packJobs(jobs, 30) {
 			b := b
 			units = append(units, func() { m.judgeShape(engine{"engine", cv}, []batch{b}, true) })
 		}
@@ -208,73 +243,92 @@ func binEngineUnits(m *monitor) []func() {
 	return units
 }
 
+// pickLens keeps 0, maxLen and the boundary lengths that fit, thinned to about n.
+func pickLens(rng *rand.Rand, k *binKind, minLen, maxLen, n int) []int {
+	seen := map[int]bool{}
+	var must, rest []int
+	addTo := func(dst *[]int, v int) {
+		if v >= minLen && v <= maxLen && !seen[v] {
+			seen[v] = true
+			*dst = append(*dst, v)
+		}
+	}
+	for _, v := range []int{minLen, maxLen} {
+		addTo(&must, v)
+	}
+	for _, v := range append([]int{maxLen - 1, minLen + 1}, boundaryLengths(k, 3)...) {
+		addTo(&rest, v)
+	}
+	for i := 0; i < 4; i++ {
+		if maxLen > minLen {
+			addTo(&rest, minLen+rng.IntN(maxLen-minLen+1))
+		}
+	}
+	rng.Shuffle(len(rest), func(i, j int) { rest[i], rest[j] = rest[j], rest[i] })
+	out := must
+	for _, v := range rest {
+		if len(out) >= n {
+			break
+		}
+		out = append(out, v)
+	}
+	sortInts(out)
+	return out
+}
+
 // fixedJobs: the (declared maximum length, actual length) grid of FixedLengthSum.
 func fixedJobs(r *vcore.Run, rng *rand.Rand, kind string) []binJob {
 	k := binKinds[kind]
 	B := k.block
-	var maxLens []int
+	type grid struct {
+		maxLen int
+		n      int // number of actual lengths; -1 = every length
+	}
+	var grids []grid
 	switch {
 	case r.Quick() && kind == "sha256":
-		maxLens = []int{0, 1, 55, 56, 64, 120}
+		grids = []grid{{0, -1}, {1, -1}, {55, 3}, {56, 4}, {64, 4}, {120, 3}}
 	case r.Quick() && kind == "sha3-256":
-		maxLens = []int{0, B - 1, B, B + 1}
+		grids = []grid{{0, -1}, {B - 1, 3}, {B, 4}, {B + 1, 3}}
 	case r.Quick():
-		maxLens = []int{B}
-	case k.md:
-		maxLens = []int{0, 1, 2, 54, 55, 56, 57, 63, 64, 65, 119, 120, 121, 128, 130}
+		grids = []grid{{B, 3}}
+	case kind == "sha256":
+		grids = []grid{{0, -1}, {1, -1}, {2, -1}, {55, -1}, {56, -1}, {64, 30}, {65, 20}, {119, 20}, {120, 20}, {128, 20}, {183, 12}}
 	default:
-		maxLens = []int{0, 1, B - 2, B - 1, B, B + 1, 2*B - 1, 2 * B, 2*B + 1}
+		grids = []grid{{0, -1}, {1, -1}, {B - 1, 12}, {B, 12}, {B + 1, 12}, {2 * B, 10}, {2*B + 1, 10}}
+		if kind == "sha3-512" || kind == "keccak256" {
+			grids[4].n = -1 // every actual length for one declared maximum (both rates, both domain bytes)
+		}
 	}
 	var jobs []binJob
-	for mi, maxLen := range maxLens {
-		content := contents[mi%len(contents)]
-		msg := makeMsg(rng, maxLen, content)
-		var lens []int
-		if r.Quick() {
-			seen := map[int]bool{}
-			cand := append(boundaryLengths(k, 3), 0, maxLen, maxLen-1, maxLen-B)
-			for _, n := range cand {
-				if n >= 0 && n <= maxLen && !seen[n] {
-					seen[n] = true
-					lens = append(lens, n)
-				}
-			}
-			sortInts(lens)
-		} else {
-			lens = allLengths(maxLen)
+	for gi, g := range grids {
+		content := contents[gi%len(contents)]
+		msg := makeMsg(rng, g.maxLen, content)
+		lens := allLengths(g.maxLen)
+		if g.n >= 0 {
+			lens = pickLens(rng, k, 0, g.maxLen, g.n)
 		}
 		for _, n := range lens {
 			jobs = append(jobs, binJob{kind: kind, msg: msg, content: content, fixed: true, length: n})
 		}
 	}
 	// WithMinimalLength: lower bound on the actual length
-	type ml struct{ maxLen, minLen int }
+	type ml struct{ maxLen, minLen, n int }
 	var mls []ml
-	if k.md {
-		mls = []ml{{64, 1}, {64, 64}, {120, 56}, {120, 64}, {120, 65}, {120, 120}}
-	} else {
-		mls = []ml{{B + 1, 1}, {B + 1, B - 1}, {B + 1, B}, {B + 1, B + 1}}
-	}
-	if r.Quick() && kind != "sha256" && kind != "sha3-256" {
-		mls = mls[1:2]
+	switch {
+	case r.Quick() && kind == "sha256":
+		mls = []ml{{64, 64, 1}, {120, 56, 3}}
+	case r.Quick() && (kind == "sha3-256" || kind == "keccak512"):
+		mls = []ml{{B + 1, B - 1, 2}}
+	case r.Quick():
+	case k.md:
+		mls = []ml{{64, 1, 12}, {64, 64, 1}, {120, 56, 12}, {120, 64, 12}, {120, 65, 12}, {120, 120, 1}}
+	default:
+		mls = []ml{{B + 1, 1, 8}, {B + 1, B - 1, 3}, {B + 1, B, 2}, {B + 1, B + 1, 1}, {2*B + 1, B + 1, 6}}
 	}
 	for _, x := range mls {
 		msg := makeMsg(rng, x.maxLen, "random")
-		var lens []int
-		if r.Quick() {
-			seen := map[int]bool{}
-			for _, n := range []int{x.minLen, x.minLen + 1, B - 9, B - 8, B - 1, B, x.maxLen - 1, x.maxLen} {
-				if n >= x.minLen && n <= x.maxLen && !seen[n] {
-					seen[n] = true
-					lens = append(lens, n)
-				}
-			}
-		} else {
-			for n := x.minLen; n <= x.maxLen; n++ {
-				lens = append(lens, n)
-			}
-		}
-		for _, n := range lens {
+		for _, n := range pickLens(rng, k, x.minLen, x.maxLen, x.n) {
 			jobs = append(jobs, binJob{kind: kind, msg: msg, content: "random", fixed: true, length: n, minLen: x.minLen})
 		}
 	}
@@ -321,8 +375,8 @@ func binCompiledUnits(m *monitor) []func() {
 	}
 	nData := r.Pick(2, 6)
 	sets := []shapeSet{
-		{"sha256", sumShape("sha256", []int{0, 55, 56, 64, 119}, 65), nData},
-		{"ripemd160", sumShape("ripemd160", []int{0, 55, 56, 64}, 65), nData},
+		{"sha256", sumShape("sha256", []int{0, 55, 56, 64, 119, 120, 128}, 65), nData},
+		{"ripemd160", sumShape("ripemd160", []int{0, 55, 56, 64, 119}, 65), nData},
 		{"sha3-256", sumShape("sha3-256", []int{0, 135, 136}, 0), nData},
 		{"sha3-384", sumShape("sha3-384", []int{102, 103}, 0), nData},
 		{"sha3-512", sumShape("sha3-512", []int{70, 71, 72}, 0), nData},
@@ -376,6 +430,47 @@ func binCompiledUnits(m *monitor) []func() {
 					var bs []batch
 					for v := 0; v < s.n; v++ {
 						bs = append(bs, s.make(rng, v))
+					}
+					m.judgeShape(engine{en, cv}, bs, true)
+				})
+			}
+		}
+	}
+	// every message length of the two Merkle-Damgard hashes, swept on compiled
+	// circuits (cheaper per block than the test engine), builders alternating,
+	// three contents per circuit
+	if r.Thorough() {
+		cv := curveNats[0]
+		for _, kind := range []string{"sha256", "ripemd160"} {
+			top := 3*64 + 2
+			if kind == "ripemd160" {
+				top = 2*64 + 2
+			}
+			var groups [][]int
+			var cur []int
+			cost := 0
+			for n := 0; n <= top; n++ {
+				c := n/64 + 1
+				if n%64 >= 56 {
+					c++
+				}
+				if cost+c > 36 && len(cur) > 0 {
+					groups = append(groups, cur)
+					cur, cost = nil, 0
+				}
+				cur = append(cur, n)
+				cost += c
+			}
+			groups = append(groups, cur)
+			for gi, g := range groups {
+				kind, g, gi := kind, g, gi
+				en := []string{"r1cs", "scs"}[gi%2]
+				units = append(units, func() {
+					rng := m.r.Rand(fmt.Sprintf("bin-sweep/%s/%d", kind, gi))
+					mk := sumShape(kind, g, 0)
+					var bs []batch
+					for v := 0; v < 3; v++ {
+						bs = append(bs, mk(rng, v+gi))
 					}
 					m.judgeShape(engine{en, cv}, bs, true)
 				})
@@ -539,6 +634,12 @@ func merkleDepth(m *monitor, e engine, spec fhSpec, depth int, every bool) {
 	r := m.r
 	cv := e.curve
 	class := "merkle/" + spec.Hash
+	if os.Getenv("VERIF_C15_TIMING") != "" {
+		t0 := time.Now()
+		defer func() {
+			fmt.Printf("timing: %-14s %-40s depth=%d %.2fs\n", e, class, depth, time.Since(t0).Seconds())
+		}()
+	}
 	run, _, err := e.prepare(merkleShape(spec, depth))
 	if err != nil {
 		r.Eval(fmt.Sprintf("%s|merkle|%s|%d", e, spec, depth), true)
